@@ -17,7 +17,8 @@ pub enum Case {
         pos: Vec<String>,
         unwritable: bool,
         /// how the --outfile path is spelt: 0 plain; 1 a file name that is not UTF-8 (Latin-1
-        /// bytes); 2 a directory that is not UTF-8; 3 Unicode and spaces; 4 a 200-character name
+        /// bytes); 2 a directory that is not UTF-8; 3 Unicode and spaces; 4 a 200-character name;
+        /// 10-13: plain path, but stdout full / stderr full / stdout's reader gone / both full
         #[serde(default)]
         path_style: u8,
     },
@@ -288,7 +289,7 @@ pub fn gen_lib<R: Rng>(rng: &mut R, big: bool) -> ScriptedCase {
                 convergence: Some(1e9),
                 builder_history: if rng.gen_bool(0.3) { Some(rng.gen::<u32>() as u64) } else { None },
             },
-            via_api: rng.gen_bool(0.4), aliases: vec![],
+            via_api: rng.gen_bool(0.4), aliases: vec![], score_offset: 0.,
         };
     }
     let vals: &[u64] = if big { &[0, 1, 2, 3, 7, 999, 1000, 1001, 2500, 100_000] } else { &[0, 1, 2, 3, 7, 999, 1000, 1001, 2500] };
@@ -321,7 +322,7 @@ pub fn gen_lib<R: Rng>(rng: &mut R, big: bool) -> ScriptedCase {
             convergence: conv,
             builder_history: if rng.gen_bool(0.3) { Some(rng.gen::<u32>() as u64) } else { None },
         },
-        via_api: rng.gen_bool(0.4), aliases: vec![],
+        via_api: rng.gen_bool(0.4), aliases: vec![], score_offset: 0.,
     }
 }
 
@@ -335,6 +336,10 @@ pub fn check_cli(ctx_cli: &std::path::Path, tag: &str, pre: &[String], pos: &[St
     let out = if unwritable {
         let base = std::path::PathBuf::from(format!("{}/.build/scratch/no-such-directory/deeper/out", crate::common::verif_dir()));
         cli::run_with_outfile(ctx_cli, &base, &pre_s, &pos_s, &[("RAYON_NUM_THREADS", "2".to_string())], 300, true)
+    } else if path_style >= 10 {
+        // standard streams that cannot be written to (a full device, a reader that has gone)
+        st.count(&format!("cli_runs_with_broken_standard_streams[{}]", path_style - 9));
+        cli::run_stdio(ctx_cli, tag, &pre_s, &pos_s, &[("RAYON_NUM_THREADS", "2".to_string())], 300, path_style - 9)
     } else if path_style > 0 {
         // any path the file system accepts is a valid --outfile
         use std::os::unix::ffi::OsStringExt;
@@ -388,7 +393,9 @@ pub fn check_cli(ctx_cli: &std::path::Path, tag: &str, pre: &[String], pos: &[St
         }
         Some(code) => {
             st.count(&format!("cli_exit_{}", code));
-            if out.stderr.trim().is_empty() && out.stdout.trim().is_empty() {
+            if path_style >= 10 {
+                // (the message, if any, went where it could not be written)
+            } else if out.stderr.trim().is_empty() && out.stdout.trim().is_empty() {
                 st.violation(viol("non-zero-exit-without-a-message", &c, json!({"status": code})));
                 return;
             }
@@ -570,7 +577,7 @@ pub fn cli_grid<R: Rng>(rng: &mut R, n: usize) -> Vec<(Vec<String>, Vec<String>,
 }
 
 pub fn run(ctx: &Ctx) {
-    ctx.set_rule("library: optimise_state on deterministic bowl landscapes (k = 6, optionally with an undefined region) for steps, inner_steps in {0,1,2,3,7,999,1000,1001,2500,(1e5)} incl. non-multiples and inner_steps > steps, temperatures 0..10, all schedule options, convergence in {unset,0,1e-9,1e-5,2e-4,1e-3,3e-3,1e9}; each configuration is run without and with its threshold: no panic, number of proposals (score calls - 2) within [steps - one loop, steps], the convergent run's call log a bit-exact prefix of the full run's, and the exit at exactly the loop the >5-consecutive-slow-loops rule dictates (decided from the scores at loop boundaries of the full run). CLI: the real binary over groups x shapes x potentials x replications {0,1,3} x the same step settings, unwritable output path, output paths that are not UTF-8 (file name, directory), with Unicode and spaces, 200 characters long, polygon --sides 0..3, polygon -p LJ, unknown group, negative steps: exit 0 needs both parseable files, non-zero needs a message, never a panic (status 101, 'panicked at', signal). Fault enumeration: each of the six system calls on the two output files (openat/write/close of .json and .svg) is made to fail in turn with ENOSPC/EIO/EACCES/EINTR (strace injection), same classification. Non-trivial = edge configurations (0, non-multiples, inner > steps), runs with a threshold, every CLI run; distinct by configuration");
+    ctx.set_rule("library: optimise_state on deterministic bowl landscapes (k = 6, optionally with an undefined region) for steps, inner_steps in {0,1,2,3,7,999,1000,1001,2500,(1e5)} incl. non-multiples and inner_steps > steps, temperatures 0..10, all schedule options, convergence in {unset,0,1e-9,1e-5,2e-4,1e-3,3e-3,1e9}; each configuration is run without and with its threshold: no panic, number of proposals (score calls - 2) within [steps - one loop, steps], the convergent run's call log a bit-exact prefix of the full run's, and the exit at exactly the loop the >5-consecutive-slow-loops rule dictates (decided from the scores at loop boundaries of the full run). CLI: the real binary over groups x shapes x potentials x replications {0,1,3} x the same step settings, unwritable output path, output paths that are not UTF-8 (file name, directory), with Unicode and spaces, 200 characters long, standard output / error on a full device or a pipe whose reader has gone, polygon --sides 0..3, polygon -p LJ, unknown group, negative steps: exit 0 needs both parseable files, non-zero needs a message, never a panic (status 101, 'panicked at', signal). Fault enumeration: each of the six system calls on the two output files (openat/write/close of .json and .svg) is made to fail in turn with ENOSPC/EIO/EACCES/EINTR (strace injection), same classification. Non-trivial = edge configurations (0, non-multiples, inner > steps), runs with a threshold, every CLI run; distinct by configuration");
     let n_lib = ctx.tier.pick(50u64, 1_500u64);
     let big = ctx.tier == Tier::Thorough;
     enable_discarding_logger();
@@ -592,7 +599,7 @@ pub fn run(ctx: &Ctx) {
             .enumerate()
             .map(|(i, (pre, pos, unw))| {
                 let mut st = Stats::new();
-                let style = if *unw { 0 } else { [0u8, 0, 0, 0, 1, 2, 3, 4][i % 8] };
+                let style = if *unw { 0 } else { [0u8, 0, 0, 10, 1, 2, 3, 4, 0, 11, 0, 12, 0, 13, 0, 0][i % 16] };
                 check_cli(&exe, &format!("c20-{}-{}", seed, i), pre, pos, *unw, style, &mut st);
                 st
             })
